@@ -116,6 +116,7 @@ type Exec struct {
 	callSeqs map[string]int
 	havocked bool
 	opaque   map[string]bool
+	zeroRow  *Term
 }
 
 type Frame struct {
@@ -244,6 +245,19 @@ func (x *Exec) writePlace(heap map[string]*Term, p *Place, v *Term) {
 		nv := v
 		if len(p.Sub) > 0 {
 			nv = updStruct(Select(row, p.Idx), p.Sub, v)
+		}
+		if x.opaque["bitAt"] && p.Elem.K == KBV && p.Elem.W == 8 && len(p.Sub) == 0 {
+			// opaque bit view: echo the byte store at the bit level
+			nr := x.eng.FreshVar("row", row.S)
+			x.vc.Assume(App("=", SBool, nr, Store(row, p.Idx, nv)))
+			B := Var("B?", SInt)
+			lo := Mul(IntLit(8), p.Idx)
+			in := And(Le(lo, B), Lt(B, Add(lo, IntLit(8))))
+			q := Forall([]*Term{B}, Ite(in, Eq(x.rowBit(nr, B), x.bitOfByte(nv, Sub(B, lo))), Eq(x.rowBit(nr, B), x.rowBit(row, B))))
+			q.Pats = [][]*Term{{x.rowBit(nr, B)}}
+			x.vc.Assume(q)
+			heap[p.Comp] = x.nameBig(Store(m, p.Ref, nr), p.Comp)
+			return
 		}
 		heap[p.Comp] = x.nameBig(Store(m, p.Ref, Store(row, p.Idx, nv)), p.Comp)
 	} else {
